@@ -19,7 +19,7 @@ RULE = ("(a) every command class is constructed over comm 0..255, counts 1..125,
         "command class, argument class) tuples + distinct transaction ids seen")
 ASSUMPTIONS = ["the decoders in refcodec follow the Modbus specification (big-endian fields, CRC lo-hi, MBAP length = bytes "
                "that follow) and the AA55 framing stated in the property"]
-MUST = ["contract_eval_create_modbus_rtu_request", "contract_eval_create_modbus_tcp_request",
+MUST = ["tcp_session_dropped_between_requests", "contract_eval_create_modbus_rtu_request", "contract_eval_create_modbus_tcp_request",
         "contract_eval_create_modbus_rtu_multi_request", "contract_eval_create_modbus_tcp_multi_request",
         "txid_wraps", "negative_values", "aa55_negative_values", "wire_ops_matched", "wire_retransmissions",
         "classes_constructed"]
@@ -194,13 +194,17 @@ def wire_ops(spec, part):
                 v = rnd.choice((-1, -32768, 32767, 0, rnd.randrange(-32768, 32768)))
                 steps.append(["write", reg, v]); ops.append(("write", reg, v))
             elif k == "multi":
-                data = bytes(rnd.randrange(256) for _ in range(2 * rnd.randrange(1, 124)))
+                data = bytes(rnd.randrange(256) for _ in range(2 * rnd.choice((1, 1, 2, 4, rnd.randrange(1, 124)))))
                 steps.append(["multi", reg, data.hex()]); ops.append(("multi", reg, data))
             elif k == "rsensor":
                 steps.append(["rsensor", reg]); ops.append(("read", reg, 1))
             else:
                 v = rnd.randrange(-32768, 32768)
                 steps.append(["wsetting", reg, v]); ops.append(("write", reg, v))
+        if transport == "tcp" and rnd.random() < 0.4:       # the peer closes the session between two requests
+            j = rnd.randrange(1, len(steps) + 1)
+            steps.insert(j, ["peerdrop"])
+            part.count("tcp_session_dropped_between_requests")
         drops = rnd.choice((0, 0, 1, 2))
         sim = sims.ModbusSim(engine.HOST)
         dropped = {"n": 0}
@@ -212,7 +216,7 @@ def wire_ops(spec, part):
                 return None
             return _o(req, kind)
         sim.handle = handle
-        sc = {"transport": transport, "framing": framing, "keep_alive": rnd.random() < 0.5, "T": 1, "R": 3,
+        sc = {"transport": transport, "framing": framing, "keep_alive": rnd.random() < 0.6, "T": 1, "R": 3,
               "comm": rnd.choice((0, 0x11, 0xF7, 0xFE)), "family": rnd.choice(("ET", "DT")),
               "tasks": [{"start": 0.0, "steps": steps}]}
         run = engine.run_scenario(sc, peer_factory=lambda s, _sim=sim: _sim, quiesce=False)
@@ -247,7 +251,7 @@ def wire_ops(spec, part):
             else:
                 okay = False
                 break
-        completed = [c for c in run.calls if c["outcome"] == "ok"]
+        completed = [c for c in run.calls if c["outcome"] == "ok" and c["step"][0] != "peerdrop"]
         if not okay or j < len(completed):
             bad(part, framing, "wire-operation-mismatch",
                 f"intended {[(o[0], o[1]) for o in ops]} but the simulator decoded {[(o[0], o[1]) for o in seen_ops]}", case)
